@@ -15,16 +15,21 @@ RULE = ("Hypothesis: well-formed sequences on 2 channels with time/key signature
         "Distinct by case digest.")
 ASSUMPTIONS = ["cutoff: total duration is not part of the statement and is not compared",
                "set_channel is compared at event level (note pairing may change when two channels shared a pitch)"]
-TIERS = {"quick": dict(shards=8, examples=1500), "thorough": dict(shards=16, examples=15000)}
+TIERS = {"quick": dict(shards=8, examples=1500, alt_ppqn=[480, 7], alt_shards=3),
+         "thorough": dict(shards=16, examples=15000, alt_ppqn=[480, 96, 10, 1000], alt_shards=4)}
 
 
 @st.composite
 def _case(draw):
     spec = draw(gens.seqspec(meta=gens.meta_events(max_tick=150, max_events=3, with_noise=True),
-                             channels=(0, 1), pitches=(60, 61, 62), max_notes=7, max_len=40))
+                             channels=(0, 1), pitches=draw(st.sampled_from([(60, 61, 62), (60, 61, 62), (21, 108), (0, 127)])), max_notes=7,
+                             max_len=40))
     notes = spec["notes"]
-    d = max([n[3] for n in notes] + [m[1] for m in spec["meta"]] + [spec["pad"] or 0])
     op = draw(st.sampled_from(["pad", "cutoff", "scale", "set_channel"]))
+    if draw(st.integers(0, 3 if op != "pad" else 1)) == 0:
+        # long trailing rest: total durations up to 20000 ticks (float round trips of the duration are duration-specific)
+        spec["pad"] = draw(st.integers(0, 20000))
+    d = max([n[3] for n in notes] + [m[1] for m in spec["meta"]] + [spec["pad"] or 0])
     case = {"seq": spec, "op": op}
     if op == "pad":
         case["n"] = draw(st.one_of(st.sampled_from([0, max(0, d - 1), d, d + 1, d + 17, 3 * d + 5]), st.integers(0, 400)))
